@@ -603,6 +603,7 @@ def _fresh_objeval(repo: Repo):
     from ..objeval import ObjEval
 
     oe = ObjEval(repo)
+    oe.max_steps = 60_000_000
     ops, _ = opcode_registry(repo)
     from ..objeval import ImportTimeRegistry
 
